@@ -776,6 +776,10 @@ func OpenWith(path string, vLogs []appendable.Appendable, txLog, cLog appendable
 }
 
 func (s *ImmuStore) syncer() {
+	if simhook.Enabled {
+		simhook.GoStart("syncer")
+		defer simhook.GoEnd()
+	}
 	for {
 		committedTxID := s.LastCommittedTxID()
 
@@ -792,6 +796,9 @@ func (s *ImmuStore) syncer() {
 		for i := 0; i < 4; i++ {
 			// give some time for more transactions to be precommitted
 			time.Sleep(s.syncFrequency / 4)
+			if simhook.Enabled {
+				simhook.Yield("syncer-after-sleep")
+			}
 
 			latestPrecommitedTx := s.LastPrecommittedTxID()
 
@@ -889,6 +896,9 @@ func (s *ImmuStore) InitIndexing(spec *IndexSpec) error {
 		return fmt.Errorf("%w: empty prefix can not have a source prefix", ErrIllegalArguments)
 	}
 
+	if simhook.Enabled {
+		simhook.BeforeLock("store.indexersMux", s.simTryIndexersMux)
+	}
 	s.indexersMux.Lock()
 	defer s.indexersMux.Unlock()
 
@@ -935,6 +945,9 @@ func (s *ImmuStore) InitIndexing(spec *IndexSpec) error {
 }
 
 func (s *ImmuStore) CloseIndexing(prefix []byte) error {
+	if simhook.Enabled {
+		simhook.BeforeLock("store.indexersMux", s.simTryIndexersMux)
+	}
 	s.indexersMux.Lock()
 	defer s.indexersMux.Unlock()
 
@@ -956,6 +969,9 @@ func (s *ImmuStore) CloseIndexing(prefix []byte) error {
 }
 
 func (s *ImmuStore) DeleteIndex(prefix []byte) error {
+	if simhook.Enabled {
+		simhook.BeforeLock("store.indexersMux", s.simTryIndexersMux)
+	}
 	s.indexersMux.Lock()
 	defer s.indexersMux.Unlock()
 
@@ -1123,6 +1139,9 @@ func (s *ImmuStore) UseTimeFunc(timeFunc TimeFunc) error {
 		return ErrIllegalArguments
 	}
 
+	if simhook.Enabled {
+		simhook.BeforeLock("store.mutex", s.simTryMutex)
+	}
 	s.mutex.Lock()
 	defer s.mutex.Unlock()
 
@@ -1685,6 +1704,10 @@ func (s *ImmuStore) precommit(ctx context.Context, otx *OngoingTx, hdr *TxHeader
 	defer close(doneWithValuesCh)
 
 	go func() {
+		if simhook.Enabled {
+			simhook.GoStart("valwriter")
+			defer simhook.GoEnd()
+		}
 		// value write is delayed to ensure values are inmediatelly followed by the associated tx header
 		if s.embeddedValues {
 			doneWithValuesCh <- appendableResult{nil, nil}
@@ -1719,6 +1742,9 @@ func (s *ImmuStore) precommit(ctx context.Context, otx *OngoingTx, hdr *TxHeader
 	}
 
 	valueWritingResult := <-doneWithValuesCh // wait for data to be written
+	if simhook.Enabled {
+		simhook.Yield("precommit-values-written")
+	}
 	if valueWritingResult.err != nil {
 		return nil, valueWritingResult.err
 	}
@@ -1769,6 +1795,9 @@ func (s *ImmuStore) precommit(ctx context.Context, otx *OngoingTx, hdr *TxHeader
 		}
 	}
 
+	if simhook.Enabled {
+		simhook.BeforeLock("store.mutex", s.simTryMutex)
+	}
 	s.mutex.Lock()
 	defer s.mutex.Unlock()
 
@@ -2064,6 +2093,9 @@ func (s *ImmuStore) SetExternalCommitAllowance(enabled bool) {
 // some precommitted transactions may be reloaded.
 // Discarding may need to be redone after re-opening the store.
 func (s *ImmuStore) DiscardPrecommittedTxsSince(txID uint64) (int, error) {
+	if simhook.Enabled {
+		simhook.BeforeLock("store.mutex", s.simTryMutex)
+	}
 	s.mutex.Lock()
 	defer s.mutex.Unlock()
 
@@ -2293,6 +2325,9 @@ func (s *ImmuStore) preCommitWith(ctx context.Context, callback func(txID uint64
 		return nil, ErrIllegalArguments
 	}
 
+	if simhook.Enabled {
+		simhook.BeforeLock("store.mutex", s.simTryMutex)
+	}
 	s.mutex.Lock()
 	defer s.mutex.Unlock()
 
@@ -2369,6 +2404,10 @@ func (s *ImmuStore) preCommitWith(ctx context.Context, callback func(txID uint64
 	defer close(doneWithValuesCh)
 
 	go func() {
+		if simhook.Enabled {
+			simhook.GoStart("valwriter")
+			defer simhook.GoEnd()
+		}
 		if s.embeddedValues {
 			// value write is delayed to ensure values are inmediatelly followed by the associated tx header
 			doneWithValuesCh <- appendableResult{nil, nil}
@@ -2403,6 +2442,9 @@ func (s *ImmuStore) preCommitWith(ctx context.Context, callback func(txID uint64
 	}
 
 	valueWritingResult := <-doneWithValuesCh // wait for data to be written
+	if simhook.Enabled {
+		simhook.Yield("precommit-values-written")
+	}
 	if valueWritingResult.err != nil {
 		return nil, valueWritingResult.err
 	}
@@ -3121,6 +3163,9 @@ func (s *ImmuStore) appendableReaderForTx(txID uint64, allowPrecommitted bool) (
 }
 
 func (s *ImmuStore) ReadTx(txID uint64, skipIntegrityCheck bool, tx *Tx) error {
+	if simhook.Enabled {
+		simhook.BeforeLock("store.mutex", s.simTryMutex)
+	}
 	s.mutex.Lock()
 	defer s.mutex.Unlock()
 
@@ -3378,6 +3423,9 @@ func (s *ImmuStore) validatePreconditions(preconditions []Precondition) error {
 }
 
 func (s *ImmuStore) Sync() error {
+	if simhook.Enabled {
+		simhook.BeforeLock("store.mutex", s.simTryMutex)
+	}
 	s.mutex.Lock()
 	defer s.mutex.Unlock()
 
@@ -3503,6 +3551,9 @@ func (s *ImmuStore) sync() error {
 }
 
 func (s *ImmuStore) IsClosed() bool {
+	if simhook.Enabled {
+		simhook.BeforeLock("store.mutex", s.simTryMutex)
+	}
 	s.mutex.Lock()
 	defer s.mutex.Unlock()
 
@@ -3510,6 +3561,9 @@ func (s *ImmuStore) IsClosed() bool {
 }
 
 func (s *ImmuStore) Close() error {
+	if simhook.Enabled {
+		simhook.BeforeLock("store.mutex", s.simTryMutex)
+	}
 	s.mutex.Lock()
 	defer s.mutex.Unlock()
 
@@ -3598,6 +3652,9 @@ func minUint64(a, b uint64) uint64 {
 // index is the index of the entry in the transaction
 // allowPrecommitted indicates if a precommitted transaction can be read
 func (s *ImmuStore) readTxOffsetAt(txID uint64, allowPrecommitted bool, index int) (*TxEntry, error) {
+	if simhook.Enabled {
+		simhook.BeforeLock("store.mutex", s.simTryMutex)
+	}
 	s.mutex.Lock()
 	defer s.mutex.Unlock()
 
